@@ -18,6 +18,7 @@
 
 #include "memwrapper.h"
 #include "metricspace.h"
+#include "verif_hooks.h"
 #include "numeric.h"
 #include <math.h>
 #include <pthread.h>
@@ -126,6 +127,7 @@ if(m1->col == m2->col){
       else{
         to+=step;
       }
+      VERIF_SLICE("CalculateDistance", th, args[th].r_from, args[th].r_to, m1->row);
       pthread_create(&threads[th], NULL, CalcWorker, (void*) &args[th]);
     }
 
@@ -415,6 +417,7 @@ void EuclideanDistanceCondensed(matrix* m, dvector *distances, size_t nthreads)
     else{
       to+=step;
     }
+    VERIF_SLICE("DistanceCondensed", th, args[th].r_from, args[th].r_to, m->row);
     pthread_create(&threads[th], NULL, CalcCondensedWorker, (void*) &args[th]);
   }
 
@@ -463,6 +466,7 @@ void SquaredEuclideanDistanceCondensed(matrix *m, dvector *distances, size_t nth
     else{
       to+=step;
     }
+    VERIF_SLICE("DistanceCondensed", th, args[th].r_from, args[th].r_to, m->row);
     pthread_create(&threads[th], NULL, CalcCondensedWorker, (void*) &args[th]);
   }
 
@@ -511,6 +515,7 @@ void ManhattanDistanceCondensed(matrix *m, dvector *distances, size_t nthreads)
     else{
       to+=step;
     }
+    VERIF_SLICE("DistanceCondensed", th, args[th].r_from, args[th].r_to, m->row);
     pthread_create(&threads[th], NULL, CalcCondensedWorker, (void*) &args[th]);
   }
 
@@ -559,6 +564,7 @@ void CosineDistanceCondensed(matrix *m, dvector *distances, size_t nthreads)
     else{
       to+=step;
     }
+    VERIF_SLICE("DistanceCondensed", th, args[th].r_from, args[th].r_to, m->row);
     pthread_create(&threads[th], NULL, CalcCondensedWorker, (void*) &args[th]);
   }
 
